@@ -37,6 +37,9 @@ def programs(tier):
         for tk in (False, True):
             for a in CALLS + (["mp_println", "mp_remove", "mp_insert_after"] if multi else []):
                 for b in CALLS + (["mp_println", "mp_remove", "mp_insert_after"] if multi else []):
+                    # insert_after needs its anchor to be a member (it panics otherwise, by contract): not together with remove of the anchor
+                    if {a, b} == {"mp_remove", "mp_insert_after"}:
+                        continue
                     out.append(("p2_%s_%s_%d%d" % (a, b, multi, tk), multi, tk, [[a], [b]]))
     for a in CALLS:
         for b in CALLS:
